@@ -34,6 +34,12 @@ CLAIMED = {
  "C18": ("Library layer only: Selection.Delete and ReplaceFrom executed over the reference store for 5 addressed node kinds (container, nested container, whole list, list entry by key, container below an entry) with symbolic content and keys: the store afterwards equals the reference store with exactly that subtree removed / replaced, and sequences of 2 (quick) / 3 (thorough) keyed upsert/insert/delete steps with symbolic keys never leave two entries with equal keys and keep every entry under the key its key leaf holds.",
          NOTE_COMMON + "Outside the claim (and this is most of what the property worries about): the slice-, map- and struct-backed reflection stores (reflect.AppendSlice, SetMapIndex ...) cannot be interpreted; only which request reaches which parent with which key, inside which begin/end bracket, is checked. Keys are drawn from 0..255 so that their decimal text runs through the real strconv.",
          "DESIGN.md §2 C18"),
+ "C08": ("Selection.Find / parseUrlPath / findSlice / Path.String / EncodeKey with the real net/url unescaper interpreted from source: the key of a list entry is a symbolic byte string of 0..2 (quick) / 0..3 (thorough) arbitrary bytes, percent-encoded by a reference encoder; the returned selection must have the same schema node, key and content, navigation must not write, and Find(sel.Path.String()) must return the same entry; compound (string, uint8) keys in a list inside a list, absent keys / containers (no selection, no error), unknown and wrongly qualified names (not-found error), module-qualified segments, trailing slash, and ../ paths from a nested selection.",
+         NOTE_COMMON + "Outside the claim: keys longer than the byte bound, numeric keys as symbolic digits (enumerated values only: parsing symbolic decimal text costs minutes), 'read filters are not applied to walked steps'.",
+         "DESIGN.md §2 C08"),
+ "C07": ("The real BuildConstraints / Constraints / MaxDepth / ContentConstraint / FieldsMatcher+PathMatchExpression / ListRange / WithDefaults / MaxNode code (and net/url query parsing) is executed for a read (Find(?query) + export into a fresh store) of a reference store with symbolic leaf values; the exported tree must equal a reference projection: depth 1..5 (and a symbolic depth through the MaxDepth object), content=config|nonconfig|all, with-defaults=trim, 11 fields / fc.xfields expressions (nested, alternatives, groups, longer than the tree), fc.range windows over 0..3 (quick) / 0..4 (thorough) rows, fc.max-node-count 1..8, 4 parameter combinations (intersection), 11 invalid values (must be errors), and the source must receive no write.",
+         NOTE_COMMON + "Outside the claim: parameter values are enumerated catalogues except leaf content and the symbolic depth; empty or inverted fc.range windows (not specified); filter/where are C16.",
+         "DESIGN.md §2 C07"),
 }
 NA_REASON = "engine under construction; no check registered yet"
 
